@@ -833,6 +833,13 @@ def call_method(ex, st, obj, name, args, kwargs, node):
                 if c is not False:
                     raise Unsupported('symbolic list.index')
             raise Unsupported('list.index miss')
+    if isinstance(obj, dict):
+        if name == 'values':
+            return list(obj.values())
+        if name == 'keys':
+            return list(obj.keys())
+        if name == 'items':
+            return [(k, v) for k, v in obj.items()]
     if isinstance(obj, str):
         if name == 'join':
             return Opaque('joined-string', args[0])
